@@ -11,6 +11,7 @@
 
 mod cksum;
 mod codec;
+mod daemon;
 mod fs;
 mod path;
 mod seg;
@@ -97,6 +98,7 @@ fn main() {
         "codec" => codec::run(&opts, &mut out),
         "udp" => udp::run(&opts, &mut out),
         "fs" => fs::run(&opts, &mut out),
+        "daemon" => daemon::run(&opts, &mut out),
         "recv" => txn::run_recv(&opts, &mut out),
         "send" => txn::run_send(&opts, &mut out),
         other => {
